@@ -62,7 +62,7 @@ theorem InvR.ret {regs : RF} {mem : Mem} {pd pd' : List Pend} {er : RF} {p : Pen
     exact h.r2 q (hsub q hq) hl x hx
 
 theorem InvR.alu {regs : RF} {mem : Mem} {pd : List Pend} {er : RF} {i : Inst} (pc pc' : Nat)
-    (h : InvR regs mem pd er) (hwf : i.WF) (hpc : i.PcIndep)
+    (h : InvR regs mem pd er) (hwf : i.WF) (hpc : ∀ r, i.f pc' r = i.f pc r)
     (hdis : ∀ p ∈ pd, p.inst.isLoad = true → ∀ x ∈ i.rd ++ i.wr, x ∉ p.inst.wrD p.r0) :
     InvR (i.f pc regs) mem pd (i.f pc' er) := by
   have hag : ∀ x ∈ i.rd ++ i.wr, er x = regs x := by
@@ -72,7 +72,7 @@ theorem InvR.alu {regs : RF} {mem : Mem} {pd : List Pend} {er : RF} {i : Inst} (
     exact hdis p hp hl x hx
   constructor
   · intro x hx
-    rw [hpc pc' pc er]
+    rw [hpc er]
     by_cases hw : x ∈ i.wr
     · exact hwf.f_dep pc er regs hag x hw
     · rw [hwf.f_frame pc er x hw, hwf.f_frame pc regs x hw]
@@ -268,6 +268,12 @@ theorem InvC.wait {vm lgkm : Nat} {vq sq : List Pend} {H : HState} (n m : Nat)
     simp only [List.length_map]
     have := hc.cvm
     omega
+
+theorem InvC.clear {vm lgkm : Nat} {vq sq : List Pend} {H : HState}
+    (hc : InvC vm lgkm vq sq H) (hv : vm = 0) : InvC vm lgkm vq sq { H with pv := [] } := by
+  have hv0 : vq = [] := List.eq_nil_of_length_eq_zero (by have := hc.cvm; omega)
+  subst hv0
+  exact ⟨hc.cvm, hc.clgkm, by simp, hc.smem, hc.pls⟩
 
 theorem InvC.done {vm lgkm : Nat} {vq sq : List Pend} {H : HState}
     (hc : InvC vm lgkm vq sq H) (_hv : vm = 0) (hl : lgkm = 0) : vq = [] ∧ sq = [] ∧ InvC vm lgkm vq sq {} := by
